@@ -4,11 +4,13 @@ package main
 
 import (
 	"bytes"
+	"encoding/binary"
 	"encoding/hex"
 	stdjson "encoding/json"
 	"errors"
 	"fmt"
 	"io"
+	"math"
 	"reflect"
 	"runtime"
 	"strings"
@@ -369,11 +371,63 @@ func c13Messages(c *Ctx, cases []msgCase) {
 	}
 }
 
+// c13Doubles: doubles bit for bit - both zeros, infinities, a NaN with a payload, the smallest and the largest
+// finite values.  Under the binary protocol the bytes are the big-endian IEEE 754 bits; under every protocol what was
+// written is read back with the same bits, on its own and as a list element, map value and field.
+func c13Doubles(c *Ctx) {
+	vals := []float64{0, math.Copysign(0, -1), 1, -1, math.Inf(1), math.Inf(-1), math.Float64frombits(0x7ff8000000000001), math.SmallestNonzeroFloat64,
+		-math.SmallestNonzeroFloat64, math.MaxFloat64, -math.MaxFloat64, 0.1, 1e-310}
+	for _, pn := range []string{"binary", "binary-nonstrict", "compact"} {
+		p := protoOf(pn)
+		for _, v := range vals {
+			bits := math.Float64bits(v)
+			k := thriftCase{Proto: pn, What: fmt.Sprintf("double bits=%016x", bits)}
+			var w bytes.Buffer
+			c.Case()
+			c.Eval(1)
+			if pan := protect(func() { p.NewWriter(&w).WriteFloat64(v) }); pan != "" {
+				c.Diverge("C13", "Writer.WriteFloat64["+pn+"]", "8 bytes", pan, "", k)
+				continue
+			}
+			if pn != "compact" {
+				if want := binary.BigEndian.AppendUint64(nil, bits); !bytes.Equal(w.Bytes(), want) {
+					c.Diverge("C13", "Writer.WriteFloat64["+pn+"]", hex.EncodeToString(want), hex.EncodeToString(w.Bytes()), "", k)
+				}
+			}
+			got, err := p.NewReader(bytes.NewReader(w.Bytes())).ReadFloat64()
+			if err != nil || math.Float64bits(got) != bits {
+				c.Diverge("C13", "Reader.ReadFloat64(Writer.WriteFloat64(v))["+pn+"]", fmt.Sprintf("%016x", bits), fmt.Sprintf("%016x err=%v", math.Float64bits(got), err), "", k)
+			}
+			type holder struct {
+				L []float64        `thrift:"1"`
+				M map[int8]float64 `thrift:"2"`
+				R float64          `thrift:"3,required"`
+				P *float64         `thrift:"4"`
+			}
+			in := holder{L: []float64{v, v}, M: map[int8]float64{1: v}, R: v, P: &v}
+			b, err := thrift.Marshal(p, in)
+			var out holder
+			if err == nil {
+				err = thrift.Unmarshal(p, b, &out)
+			}
+			same := err == nil && len(out.L) == 2 && math.Float64bits(out.L[0]) == bits && math.Float64bits(out.L[1]) == bits &&
+				math.Float64bits(out.M[1]) == bits && math.Float64bits(out.R) == bits && out.P != nil && math.Float64bits(*out.P) == bits
+			if !same {
+				c.Diverge("C13", "thrift.Unmarshal(Marshal(doubles))["+pn+"]", fmt.Sprintf("every double with bits %016x", bits), fmt.Sprintf("%+v err=%v bytes=%x", out, err, b), "", k)
+			}
+		}
+	}
+}
+
 func c13Replay(c *Ctx, raw stdjson.RawMessage) {
 	// replays re-run the whole vector case: layout/vals carry everything but the spec bytes, which the
 	// stored want/asis hex strings provide
 	var k thriftCase
 	if stdjson.Unmarshal(raw, &k) != nil {
+		return
+	}
+	if strings.HasPrefix(k.What, "double bits=") {
+		c13Doubles(c)
 		return
 	}
 	if len(k.Layout) == 0 { // message header case
@@ -510,6 +564,67 @@ var c04Histories = [][]string{
 	{"binary", "binary", "compact", "binary"}, {"compact", "compact"}, {"binary-nonstrict", "compact", "binary"},
 }
 
+// c04Embedded: struct types whose fields sit one to four levels of embedding down (by value and through pointers):
+// the package flattens them into one thrift struct, every field under its own id
+type EmbL3 struct {
+	A int32  `thrift:"1"`
+	B int32  `thrift:"2"`
+	C string `thrift:"3"`
+	H int64  `thrift:"8"`
+}
+type EmbL2 struct {
+	EmbL3
+	D int32 `thrift:"4"`
+}
+type EmbL1 struct {
+	*EmbL2
+	F bool `thrift:"5"`
+}
+type EmbL0 struct {
+	EmbL1
+	G string `thrift:"6"`
+}
+type EmbTop struct {
+	EmbL0
+	I int16 `thrift:"7"`
+}
+
+func c04Embedded(c *Ctx) {
+	l3 := EmbL3{A: 11, B: 22, C: "c", H: 88}
+	vals := []any{
+		EmbL2{EmbL3: l3, D: 4},
+		EmbL1{EmbL2: &EmbL2{EmbL3: l3, D: 4}, F: true},
+		EmbL0{EmbL1: EmbL1{EmbL2: &EmbL2{EmbL3: l3, D: 4}, F: true}, G: "g"},
+		EmbTop{EmbL0: EmbL0{EmbL1: EmbL1{EmbL2: &EmbL2{EmbL3: l3, D: 4}, F: true}, G: "g"}, I: 7},
+		EmbTop{EmbL0: EmbL0{EmbL1: EmbL1{EmbL2: &EmbL2{EmbL3: EmbL3{A: 1}}}}},
+		EmbTop{EmbL0: EmbL0{EmbL1: EmbL1{EmbL2: &EmbL2{EmbL3: EmbL3{B: 2, H: 3}}}}, I: 1},
+	}
+	for i, v := range vals {
+		for _, pn := range []string{"binary", "binary-nonstrict", "compact"} {
+			p := protoOf(pn)
+			k := thriftCase{Proto: pn, What: fmt.Sprintf("embedded structs %d", i)}
+			c.Case()
+			c.Eval(1)
+			var b []byte
+			var err error
+			if pan := protect(func() { b, err = thrift.Marshal(p, v) }); pan != "" || err != nil {
+				c.Diverge("C04", "thrift.Marshal(embedded structs)["+pn+"]", "nil error", fmt.Sprintf("%v %s", err, pan), "", k)
+				continue
+			}
+			out := reflect.New(reflect.TypeOf(v))
+			if pan := protect(func() { err = thrift.Unmarshal(p, b, out.Interface()) }); pan != "" || err != nil {
+				c.Diverge("C04", "thrift.Unmarshal(Marshal(v))(embedded structs)["+pn+"]", "nil error", fmt.Sprintf("%v %s bytes=%x", err, pan, b), "", k)
+				continue
+			}
+			w, _ := stdjson.Marshal(v)
+			g, _ := stdjson.Marshal(out.Elem().Interface())
+			if string(w) != string(g) {
+				c.Diverge("C04", "thrift.Unmarshal(Marshal(v))(embedded structs)["+pn+"]", string(w), string(g)+fmt.Sprintf(" bytes=%x", b), "", k)
+			}
+		}
+	}
+}
+
 func c04Vector(c *Ctx, raw stdjson.RawMessage) {
 	v, ok := parseThriftVec(c, "C04", raw)
 	if !ok {
@@ -575,6 +690,10 @@ func sameEncoding(a, b []byte, permuted bool) bool {
 func c04Replay(c *Ctx, raw stdjson.RawMessage) {
 	var k thriftCase
 	if stdjson.Unmarshal(raw, &k) == nil {
+		if strings.HasPrefix(k.What, "embedded structs") {
+			c04Embedded(c)
+			return
+		}
 		c04Run(c, k)
 	}
 }
@@ -651,7 +770,16 @@ func c08Run(c *Ctx, k thriftCase) {
 			}
 		}
 		want := tTreeGo(k.Layout, l.structValue(k.Layout, k.Vals))
-		b, err := thrift.Marshal(p, l.structValue(layout, vals).Interface())
+		// (a union is written like any struct that has one field set: the writer of the superset is a plain struct,
+		// so that the unknown fields really are on the wire, before and behind the member)
+		var wl []tField
+		var wv []tVal
+		for i, f := range layout {
+			if f.Ty != "UNION" {
+				wl, wv = append(wl, f), append(wv, vals[i])
+			}
+		}
+		b, err := thrift.Marshal(p, l.structValue(wl, wv).Interface())
 		if err != nil {
 			return
 		}
@@ -1211,7 +1339,7 @@ func c08Replay(c *Ctx, raw stdjson.RawMessage) {
 }
 
 func init() {
-	register("C13", &Driver{Vector: c13Vector, Replay: c13Replay})
-	register("C04", &Driver{Vector: c04Vector, Replay: c04Replay})
+	register("C13", &Driver{Vector: c13Vector, Replay: c13Replay, Extra: c13Doubles})
+	register("C04", &Driver{Vector: c04Vector, Replay: c04Replay, Extra: c04Embedded})
 	register("C08", &Driver{Vector: c08Vector, Replay: c08Replay})
 }
